@@ -583,6 +583,8 @@ pub struct BindRequest<'data> {
     payload: BindPayload<'data>,
     /// Place to respond to the bind request
     tx_msg_tx: mpsc::UnboundedSender<Message>,
+    /// Whether `reply` has been called
+    replied: AtomicBool,
 }
 
 impl BindRequest<'_> {
@@ -616,6 +618,7 @@ impl BindRequest<'_> {
     /// - Returns [`Error::Closed`] if the `Multiplexor` is already closed.
     #[tracing::instrument(skip(self), level = "debug")]
     pub fn reply(&self, accepted: bool) -> Result<()> {
+        self.replied.store(true, Ordering::Relaxed);
         if accepted {
             self.tx_msg_tx.send(Frame::new_finish(self.flow_id).into())
         } else {
@@ -638,8 +641,12 @@ impl BindRequest<'_> {
 }
 
 impl Drop for BindRequest<'_> {
-    /// Dropping a `BindRequest` will reject the request
+    /// Dropping a `BindRequest` that was never replied to will reject the request
     fn drop(&mut self) {
-        self.reply(false).ok();
+        // A request that has been answered must not be answered again: its flow ID may
+        // already identify a newer request, which a stray `Reset` would reject.
+        if !self.replied.load(Ordering::Relaxed) {
+            self.reply(false).ok();
+        }
     }
 }
